@@ -1,5 +1,16 @@
-"""C17 — resetting a story is equivalent to constructing it afresh."""
-import json, re
+"""C17 — resetting a story is equivalent to constructing it afresh.
+
+The program tree (containers and the values stored in them) is SHARED between the play before reset_state and
+the play after it, and program objects have mutable cells (the origin names of an empty-list literal, cached divert
+targets, path caches).  Besides the explored histories of the general generator the oracle therefore plays LIST
+programs (gen_ink.listify: several LISTs, list globals defaulting to `()` and to items, assignments of `()` / items
+of different LISTs / computed lists, `+=` `-=`, LIST_ALL LIST_INVERT LIST_COUNT LIST_MIN LIST_MAX printed, list
+parameters by value and by `ref`, list temporaries): every history (optionally followed by a path jump), RESET, then
+either the same walk from the start or a jump to each knot / stitch, in lock-step with a FRESH instance doing the
+same, comparing text, variables, visit counts and the save dump after every line (the origin names of empty lists
+are saved).  The engine model is alias-free, so on the same scripts it predicts the fresh behaviour.
+"""
+import json, random, re
 import vlib, engine
 from props import hist
 
@@ -11,8 +22,154 @@ ASSUMPTIONS = [
     "oracle on the implementation: every explored history (mid-line, at choices, after errors, several flows, after path "
     "jumps) followed by RESET, explored in lock-step with a fresh instance; PATH with call-stack reset keeps variables "
     "and counts and leaves one thread with one element; fault-injected programs played WITHOUT an error handler (faults "
-    "come back as Err), observers on the assigned globals, RESET, same lock-step",
+    "come back as Err), observers on the assigned globals, RESET, same lock-step; LIST programs: history (+ path jump), "
+    "RESET, then the same walk or a jump to every knot / stitch, text + variables + counts + save dump after every line "
+    "against a fresh instance",
+    "LIST programs avoid the forms of finding c17-empty-list-value-shared (a bare variable / literal-returning call on "
+    "the right of a list assignment, `~ temp t = ()` declarations): gen_ink.listify(list_alias=0)",
 ]
+
+# regression corpus of the list part (played IN ADDITION to the generated list programs)
+LIST_REGRESSION = [
+    # an empty-list literal assigned over a typed list and, after the reset, over the untyped default
+    """LIST Items = sword, shield, potion
+VAR inventory = ()
+-> pick_up
+=== pick_up ===
+~ inventory = sword
+You carry: {inventory}.
+-> drop_all
+=== drop_all ===
+~ inventory = ()
+You could carry: {LIST_ALL(inventory)}.
+-> END
+""",
+    # the same through a `ref` parameter and a subtraction; observed by LIST_INVERT and by the save only
+    """LIST Keys = (brass), iron
+LIST Coins = copper, silver
+VAR purse = ()
+VAR ring = ()
+-> fill
+=== fill ===
+~ purse = (copper, iron)
+~ ring += brass
+Purse {purse}, ring {ring}.
+* [spend] -> spend
+* [lose] -> lose
+=== spend ===
+~ empty(purse)
+Nothing but {LIST_INVERT(purse)}.
+-> END
+=== lose ===
+~ ring = ()
+Gone.
+-> END
+=== function empty(ref l) ===
+~ l = ()
+""",
+]
+
+
+class _Sub:
+    """a random stream of its own for the list part (nothing else in this check changes with it)"""
+    def __init__(self, seed):
+        self.rng = random.Random(seed)
+
+
+def canon_save(l):
+    """the origin names of an empty list are collected in HashMap order: compare them as a set"""
+    def fix(m):
+        return '"origins":[' + ",".join(sorted(set(x for x in m.group(1).split(",") if x))) + "]"
+    return re.sub(r'"origins":\[([^\]]*)\]', fix, l)
+
+
+def list_programs(rng, n, **weights):
+    """the regression corpus + generated LIST programs: dict(id, ink, lvars, places, generated)"""
+    import gen_ink
+    progs = []
+    for i, src in enumerate(LIST_REGRESSION):
+        a = hist.analyse(src)
+        progs.append(dict(id="listreg%d" % i, ink=src, generated=False, places=a["knots"],
+                          lvars=re.findall(r"^(?:VAR|LIST)\s+(\w+)\s*=", src, re.M), **a))
+    k = 0
+    while len(progs) < n:
+        k += 1
+        _src, ast = gen_ink.gen_program(rng, n_funcs=(0, 1), max_sections=2, n_gstrs=(0, 1), n_knots=(2, 3))
+        gen_ink.listify(rng, ast, **weights)
+        src = gen_ink.print_program(ast)
+        progs.append(dict(id="listgen%d" % k, ink=src, generated=True, lvars=ast["listinfo"]["vars"],
+                          places=gen_ink.count_names(ast, labels=False), **hist.analyse(src)))
+    return progs
+
+
+def list_cases(sub, exe, progs, quick):
+    """history (+ path jump); RESET; second play   vs   fresh; second play.  Second plays: a jump to a knot /
+    stitch followed by lines and a choice, the save shown after every line; or a walk from the start."""
+    trees = hist.explore_tree(exe, progs, depth=3, max_paths=20)
+    cases, meta = [], {}
+    for p in progs:
+        t = trees.get(p["id"])
+        if not t:
+            continue
+        st = hist.setup_ops(p, handler=True)
+        probes = [["GETVAR", g] for g in p["lvars"]] + [["VISITS", k] for k in p["places"][:4]] + [["SHOWSAVE"]]
+        hs = [ops for _, ops in hist.histories(sub, t, 2 if quick else 4)]
+        if not hs:
+            continue
+        places = list(p["places"])
+        sub.rng.shuffle(places)
+        seconds = [("jump:" + pl, [["PATH", pl, True], ["CONT"], ["SHOWSAVE"], ["CONT"], ["SHOWSAVE"], ["CHOOSE", 0],
+                                   ["CONT"], ["CONT"]] + probes) for pl in places[: (5 if quick else 10)]]
+        seconds.append(("play", hs[-1] + probes))
+        firsts = []
+        for hi, h in enumerate(hs):
+            firsts.append(("h%d" % hi, h))
+            if p["places"]:
+                firsts.append(("h%dj" % hi, h + [["PATH", sub.rng.choice(p["places"]), True]] + [["CONT"]] * 4))
+        for sname, s in seconds:
+            fid = f"{p['id']}|fresh|{sname}"
+            cases.append(dict(id=fid, ink=p["ink"], seed=42, fuel=40000, script=st + s))
+            meta[fid] = dict(kind="fresh")
+            for fname, f in firsts:
+                cid = f"{p['id']}|{fname}|reset|{sname}"
+                cases.append(dict(id=cid, ink=p["ink"], seed=42, fuel=40000, script=st + f + [["RESET"]] + s))
+                meta[cid] = dict(kind="reset", fresh=fid, n=len(s), generated=p["generated"])
+    return cases, meta
+
+
+def list_lockstep(cases, meta, res):
+    """-> (failures, number of compared pairs, number of pairs whose save mentions origin names)"""
+    fails, n, norig = [], 0, 0
+    byid = {c["id"]: c for c in cases}
+    for cid, m in meta.items():
+        if m["kind"] != "reset":
+            continue
+        r, f = res.get(cid), res.get(m["fresh"])
+        if not r or not f or r.get("out_of_fuel") or f.get("out_of_fuel"):
+            continue
+        if r.get("crash") is not None or f.get("crash") is not None:
+            fails.append(dict(key="crash", case=byid[cid], generated=m["generated"]))
+            continue
+        k = m["n"]
+        rl = r["lines"][-k - 1] if len(r["lines"]) > k else ""
+        if not rl.startswith('["RESET"]') or " => ok" not in rl or len(f["lines"]) < k:
+            continue
+        n += 1
+        a = [canon_save(engine.canon_line(l)) for l in f["lines"][-k:]]
+        b = [canon_save(engine.canon_line(l)) for l in r["lines"][-k:]]
+        norig += any('"origins"' in l for l in a)
+        if a != b:
+            d = next(i for i, (x, y) in enumerate(zip(a, b)) if x != y)
+            fails.append(dict(key="list-play-after-reset-differs-from-fresh", case=byid[cid],
+                              fresh_case=byid[m["fresh"]], generated=m["generated"],
+                              first_difference=dict(op=d, fresh=a[d][:1500], after_reset=b[d][:1500])))
+    # a generated program first: the regression corpus is only the safety net
+    fails.sort(key=lambda x: (not x["generated"], len(x["case"]["ink"]) + 40 * len(x["case"]["script"])))
+    return fails, n, norig
+
+
+def strip_save(c):
+    return dict(c, script=[o for o in c["script"] if o[0] != "SHOWSAVE"])
 
 
 def explore_block(lines):
@@ -154,15 +311,41 @@ def run(ctx):
     n_checked += fchecked
     ctx.coverage["reset_after_reported_fault"] = dict(programs=len(fprogs), cases=len(fcases), compared=fchecked,
                                                       with_fault_before_reset=ffaulted)
+    # LIST programs (see the module docstring): a random stream of its own
+    lsub = _Sub(getattr(ctx, "seed", 0) * 1000003 + 29)
+    lprogs = list_programs(lsub.rng, 60 if ctx.quick() else 400)
+    lcases, lmeta = list_cases(lsub, exe, lprogs, ctx.quick())
+    lres = {r["id"]: r for r in vlib.run_inkdrive(lcases, exe)}
+    lfails, lchecked, lorig = list_lockstep(lcases, lmeta, lres)
+    n_checked += lchecked
+    ctx.coverage["list_programs"] = dict(programs=len(lprogs), cases=len(lcases), compared=lchecked,
+                                         compared_with_saved_origin_names=lorig,
+                                         failing_programs=sorted(set(f["case"]["id"].split("|")[0] for f in lfails))[:20])
+    if lfails:
+        # what the (alias-free) engine model says about the first failing script
+        f = lfails[0]
+        try:
+            mr = engine.compare([strip_save(dict(f["case"], id="m:fail"))], exe, sw)[0]
+            f["engine_model"] = dict(status=mr["status"], first_diff=mr.get("first_diff"))
+        except Exception as e:
+            f["engine_model"] = dict(status="not-run", error=str(e)[:200])
+    fails += lfails
     sample = [c for c in cases if meta[c["id"]]["kind"] in ("reset", "resetjump")]
     ctx.rng.shuffle(sample)
     sample = sample[: (60 if ctx.quick() else 600)]
     mcases = [dict(c, id="m:" + c["id"]) for c in sample]
-    cres = engine.compare(mcases, exe, sw)
+    # ... and the list scripts with a jump after the reset (the model has no SHOWSAVE: the dumps are dropped)
+    lsample = [c for c in lcases if lmeta[c["id"]]["kind"] == "reset" and "|reset|jump:" in c["id"]]
+    lsub.rng.shuffle(lsample)
+    lsample = [c for c in lsample if not lmeta[c["id"]]["generated"]][:4] + \
+              [c for c in lsample if lmeta[c["id"]]["generated"]][: (24 if ctx.quick() else 300)]
+    mcases += [strip_save(dict(c, id="m:" + c["id"])) for c in lsample]
+    cres = engine.compare(mcases, exe, sw, shard=6 if ctx.quick() else 40)
+    ctx.coverage["list_programs"]["scripts_run_through_engine_model"] = len(lsample)
     mism = [r for r in cres if r["status"] in ("mismatch", "model-error")]
     agree = sum(1 for r in cres if r["status"] == "agree")
     ctx.coverage.update(dict(
-        evaluations=len(cases) + len(fcases), distinct_nontrivial=n_checked,
+        evaluations=len(cases) + len(fcases) + len(lcases), distinct_nontrivial=n_checked,
         rule="explored histories cut at every position (optionally followed by a flow switch, a path jump or running "
              "into the end) then RESET, explored to depth %d in lock-step with a fresh instance; plus path jumps with "
              "call-stack reset" % depth,
@@ -189,4 +372,7 @@ def replay(ctx, payload):
     exe = vlib.build_harness()
     r = vlib.run_inkdrive([payload["replay"]["case"]], exe)[0]
     print("\n".join(r["lines"]))
+    if payload["replay"].get("fresh_case"):
+        print("--- fresh instance")
+        print("\n".join(vlib.run_inkdrive([payload["replay"]["fresh_case"]], exe)[0]["lines"]))
     ctx.coverage.update(dict(evaluations=1, distinct_nontrivial=2, obligations=1, discharged=1))
